@@ -58,6 +58,12 @@ class _Inline(ast.NodeTransformer):
 
     def visit_Call(self, node):
         node = self.generic_visit(node)
+        if any(isinstance(a, ast.Starred) for a in node.args):
+            # f(*<inlined tuple>[a:b]) : fold the slice of the literal and splice its elements into the argument list
+            from .canon import recanon
+            node = recanon(node)
+            if not isinstance(node, ast.Call):
+                return node
         if self.depth <= 0 or not isinstance(node.func, ast.Attribute):
             return node
         recv = attr_chain(node.func.value)
